@@ -9,7 +9,7 @@
 (*   MODE  = "addsub" | "mul" | "div" | "rem" | "new" | "nov" | "frac" |   *)
 (*           "wide" | "cmp" | "expflow" | "expflow_old" | "quadrant" |     *)
 (*           "atanflow" | "powfflow" | "euclid" | "exp2scale[_old]" |      *)
-(*           "exp2flow"                                                    *)
+(*           "exp2flow" | "sqrt" | "cbrt" | "powi" | "asinflow"            *)
 (* A violated contract makes the invariant NoBad fail; the counterexample  *)
 (* state carries the operands and the violated clauses.                    *)
 (***************************************************************************)
@@ -26,6 +26,9 @@ EMAX_NARROW == 8
 E0_ZERO == 0
 E0_LOW == -6
 E0_M3 == -3
+E0_M5 == -5
+E0_M2 == -2
+E0_M4 == -4
 
 Slice == atoi(IOEnv.VERIF_SLICE)
 NSlices == atoi(IOEnv.VERIF_NSLICES)
@@ -163,11 +166,65 @@ CheckPowfFlow(x) == UNION { PowfFlowBad(v) : v \in {x, ANeg(x)} }
 \* C14/C01: exp2's power-of-two scaling of every normalised pair in [1/2, 2) by every k the reduction can produce,
 \* and the whole flow (range switch, reduction, ideal kernel, scaling) on every valid x of the window
 CheckExp2Scale(r1, old) == UNION { Exp2ScaleBad(r1, k, IF old THEN Exp2ScaleOld(r1, k) ELSE Exp2Scale(r1, k)) : k \in QMIN..EMAX }
+CheckAsinFlow(x) == UNION { AsinFlowBad(v) : v \in {x, ANeg(x)} }
 CheckExp2Flow(x) == UNION { Exp2FlowBad(v) : v \in {x, ANeg(x)} }
 
+\* C13: sqrt (Karp-Markstein step with one double-word correction) on every valid positive x of the window:
+\* normalised, and within 32 * 2^-2P relative (the constant the property states at binary64)
+RelBoundSq(r, v, c) ==          \* (1 - c u^2)^2 v <= r^2 <= (1 + c u^2)^2 v
+  LET lo == DSub(DOne, [neg |-> FALSE, mag |-> FromInt(c), e |-> -U2])
+      hi == DAdd(DOne, [neg |-> FALSE, mag |-> FromInt(c), e |-> -U2])
+  IN DCmp(DMul(DSqr(lo), v), DSqr(r)) <= 0 /\ DCmp(DSqr(r), DMul(DSqr(hi), v)) <= 0
+CheckSqrt(x) ==
+  LET r == ASqrt(x) IN
+  (IF Normalised(r) /\ Valid(r) THEN {} ELSE {<<"sqrt_not_normalised", x, r>>})
+  \cup (IF Valid(r) /\ ~Value(r).neg /\ RelBoundSq(Value(r), Value(x), 32) THEN {} ELSE {<<"sqrt_bound", x, r>>})
+  \cup (IF ASqrt(ANeg(x)).hi.k = "n" THEN {} ELSE {<<"sqrt_negative_valid", x>>})
+\* C13: cbrt from EVERY seed word within one ulp of the true cube root of the high word (libm::cbrt is only
+\* faithful), both signs: normalised, same sign, within 16 * 2^-2P relative
+DCube3(d) == DMul(d, DSqr(d))
+WPred(w) == IF w.mag = FromInt(P2(P - 1)) THEN [w EXCEPT !.mag = FromInt(P2(P) - 1), !.e = @ - 1] ELSE [w EXCEPT !.mag = FromInt(ToInt(@) - 1)]
+WSucc(w) == IF w.mag = FromInt(P2(P) - 1) THEN [w EXCEPT !.mag = FromInt(P2(P - 1)), !.e = @ + 1] ELSE [w EXCEPT !.mag = FromInt(ToInt(@) + 1)]
+CbrtSeeds(h) ==     \* positive h: words w with pred(w)^3 < h < succ(w)^3
+  LET e3 == (h.e + P - 1) \div 3 - (P - 1) IN
+  { w \in { u \in WordsIn(e3 - 2, e3 + 2) : ~u.neg } :
+      DCmp(DCube3(D(WPred(w))), D(h)) < 0 /\ DCmp(D(h), DCube3(D(WSucc(w)))) < 0 }
+RelBoundCube(r, v, c) ==
+  LET lo == DSub(DOne, [neg |-> FALSE, mag |-> FromInt(c), e |-> -U2])
+      hi == DAdd(DOne, [neg |-> FALSE, mag |-> FromInt(c), e |-> -U2])
+  IN DCmpAbs(DMul(DCube3(lo), v), DCube3(r)) <= 0 /\ DCmpAbs(DCube3(r), DMul(DCube3(hi), v)) <= 0
+CheckCbrt(x) ==
+  LET seeds == CbrtSeeds(x.hi) IN
+  (IF seeds = {} THEN {<<"cbrt_no_seed", x>>} ELSE {})
+  \cup UNION { UNION { LET sd == IF sg THEN [w EXCEPT !.neg = TRUE] ELSE w
+                          xx == IF sg THEN ANeg(x) ELSE x
+                          r == ACbrtFrom(xx, sd)
+                      IN (IF Valid(r) /\ Normalised(r) THEN {} ELSE {<<"cbrt_not_normalised", xx, sd, r>>})
+                         \cup (IF Valid(r) /\ Value(r).neg = sg /\ RelBoundCube(Value(r), Value(xx), 16) THEN {} ELSE {<<"cbrt_bound", xx, sd, r>>})
+                      : sg \in BOOLEAN }
+              : w \in seeds }
+
+\* C13: the binary powering loop of powi for n = 2..NPOW, both signs of x: normalised, within (6n + 16) 2^-2P,
+\* sign of an odd power; negative exponents are the reciprocal of the positive power (transcribed as such)
+NPOW == 12
+RECURSIVE DPowN(_, _)
+DPowN(v, n) == IF n = 0 THEN DOne ELSE DMul(v, DPowN(v, n - 1))
+CheckPowi(a) ==
+  UNION { UNION { LET r == APowiLoop(x, FromInt(n))
+                      t == DPowN(Value(x), n)
+                      tol == DMul([neg |-> FALSE, mag |-> FromInt(6 * n + 16), e |-> -U2], DAbs(t))
+                  IN (IF Normalised(r) /\ Valid(r) THEN {} ELSE {<<"powi_not_normalised", x, n, r>>})
+                     \cup (IF Valid(r) /\ DCmpAbs(DSub(Value(r), t), tol) <= 0 THEN {} ELSE {<<"powi_bound", x, n, r>>})
+                     \cup (LET q == ARecip(r) IN
+                           IF Valid(q) /\ Normalised(q)
+                              /\ DCmpAbs(DSub(DMul(Value(q), t), DOne), [neg |-> FALSE, mag |-> FromInt(6 * n + 16), e |-> -U2]) <= 0
+                           THEN {} ELSE {<<"powi_negative_bound", x, n, q>>})
+                  : n \in 2..NPOW }
+          : x \in {a, ANeg(a)} }
+
 Items ==
-  CASE MODE \in {"addsub", "mul", "div", "rem", "new", "cmp", "euclid"} -> SliceOf(SeqOfSet(ASet))
-    [] MODE \in {"expflow", "expflow_old", "quadrant", "atanflow", "powfflow", "exp2flow"} -> SliceOf(SeqOfSet(ValidWithHi({ w \in WordsIn(E0 - GAP, E0 + GAP) : ~w.neg })))
+  CASE MODE \in {"addsub", "mul", "div", "rem", "new", "cmp", "euclid", "powi"} -> SliceOf(SeqOfSet(ASet))
+    [] MODE \in {"expflow", "expflow_old", "quadrant", "atanflow", "powfflow", "exp2flow", "sqrt", "cbrt", "asinflow"} -> SliceOf(SeqOfSet(ValidWithHi({ w \in WordsIn(E0 - GAP, E0 + GAP) : ~w.neg })))
     [] MODE \in {"exp2scale", "exp2scale_old"} -> SliceOf(SeqOfSet(ValidWithHi({ w \in WordsIn(-P, -P + 1) : ~w.neg })))
     [] MODE = "frac" -> SliceOf(SeqOfSet(ValidWithHi({ w \in WordsIn(E0 - GAP, E0 + GAP) : ~w.neg })))
     [] MODE = "nov" -> SliceOf(SeqOfSet(AllWords))
@@ -193,6 +250,10 @@ CheckItem(it) ==
     [] MODE = "exp2scale" -> CheckExp2Scale(it, FALSE)
     [] MODE = "exp2scale_old" -> CheckExp2Scale(it, TRUE)
     [] MODE = "exp2flow" -> CheckExp2Flow(it)
+    [] MODE = "asinflow" -> CheckAsinFlow(it)
+    [] MODE = "sqrt" -> CheckSqrt(it)
+    [] MODE = "cbrt" -> CheckCbrt(it)
+    [] MODE = "powi" -> CheckPowi(it)
 
 Init == i = 0 /\ bad = {} /\ cnt = 0
 Next == /\ i < Len(ItemSeq)
